@@ -145,7 +145,15 @@ class Act(object):
                 inits['name'] = self.actor  # as yet unresolved name string
             inits['store'] = self.frame.store
             inits['act'] = self
-            self.actor = actor = actor(**inits) # instantiate and convert
+            try:
+                self.actor = actor = actor(**inits) # instantiate and convert
+            except TypeError as ex:  # inits do not match init signature of actor class
+                msg = "ResolveError: Bad or missing inits for actor. {0}".format(ex)
+                raise excepting.ResolveError(msg,
+                                             inits['name'],
+                                             self,
+                                             self.human,
+                                             self.count)
 
             if self.prerefs: # preinits parms dict items 'do from'
                 # each key is share src path, and value is list of src fields
